@@ -314,11 +314,12 @@ def load_findings():
 def finding_matches(f, unit, e):
     if f.get("property") != e.get("property"):
         return False
-    if f.get("template") and f["template"] != unit["template"]:
+    # template / fn / site are regular expressions (full match): one entry covers the arities of a macro
+    if f.get("template") and not re.fullmatch(f["template"], unit["template"]):
         return False
-    if f.get("fn") and f["fn"] != e.get("fn"):
+    if f.get("fn") and not re.fullmatch(f["fn"], e.get("fn") or ""):
         return False
-    if f.get("site") and f["site"] != e.get("site"):
+    if f.get("site") and not re.fullmatch(f["site"], e.get("site") or ""):
         return False
     if f.get("clause") and f["clause"] != e.get("clause"):
         return False
